@@ -82,7 +82,7 @@ class Proc:
     def __init__(self, B, cfg, locale=None, fresh=False):
         # a result that depends on uninitialised stack or heap is not a function of the arguments: the freshly exec'd reference processes
         # and the history processes fill the stack below each call frame and fresh heap blocks with DIFFERENT bytes
-        env = dict(XDRV_STACKFILL="0") if fresh else dict(XDRV_STACKFILL="165", MALLOC_PERTURB_="90")
+        env = dict(XDRV_STACKFILL="0", XDRV_ERRNO="0") if fresh else dict(XDRV_STACKFILL="165", MALLOC_PERTURB_="90", XDRV_ERRNO="12")     # ... and a different errno
         self.X = xrl.Xrl("plain", cfg, build=B, nproc=1, locale=locale, sections=True, env=env)
 
     def run(self, op):
@@ -162,6 +162,11 @@ def order_invariance(ctx, B, cfg, cap):
             step = p.n // cap + 1
             p = c03.Plan(p.name, p.kind, p.sig, [c[::step] for c in p.cols], p.op)
         base = c03.run_plan(X, p, 0)
+        # no query writes to a standard stream (both fd 1 and fd 2 are captured per call); deprecation diagnostics come from the deprecated setters only
+        for j in np.nonzero((base["flags"] & F_STDERR) != 0)[0][:3]:
+            a = c03.argtuple(p, int(j))
+            ctx.violation("%s|writes-to-standard-stream|%s" % (cfg, p.name), "%s%r writes to stdout / stderr" % (p.name, tuple(a)),
+                          dict(cfg=cfg, ops=[dict(kind=p.kind, name=p.name if p.kind == "fn" else p.op, sig=p.sig, args=a)]))
         # the same batch with an error slot that already HOLDS an error obtained from an earlier call: that object must come back untouched (same address, code, message)
         held = c03.run_plan(X, p, 2)
         ncalls += p.n
@@ -171,12 +176,14 @@ def order_invariance(ctx, B, cfg, cap):
                 p.name, tuple(a), "replaced by another object" if held["flags"][j] & xrl.F_SLOTPTR else "modified in place"),
                 dict(cfg=cfg, ops=[dict(kind=p.kind, name=p.name if p.kind == "fn" else p.op, sig=p.sig, args=a, mode=2)]))
         orders = [("repeated", np.arange(p.n)), ("reversed", np.arange(p.n)[::-1])]
+        double = np.repeat(np.arange(p.n), 2)          # every tuple twice in a row (results of both copies are compared with the single call)
         codes = [_codes(c) for c in p.cols]
         for k in range(len(codes)):
             if len(np.unique(codes[k])) < 2:
                 continue
             keys = [codes[k]] + [codes[q] for q in range(len(codes) - 1, -1, -1) if q != k]
             orders.append(("argument %d fastest" % k, np.lexsort(keys)))
+        orders.append(("each tuple twice in a row", double))
         for what, perm in orders:
             q = c03.Plan(p.name, p.kind, p.sig, [(c[perm] if isinstance(c, np.ndarray) else [c[i] for i in perm]) for c in p.cols], p.op)
             r = c03.run_plan(X, q, 0)
